@@ -27,6 +27,27 @@ func readOrder(wl *spg.WordList) []string {
 	return out
 }
 
+// checkCapitalised generates the one-word password for every index again with the scheme "all": the atom must be the
+// title-cased form (strings.Title, computed here) of the word that index selects.  Returns "" or a description.
+func checkCapitalised(wl *spg.WordList, order []string) string {
+	saved := tape
+	defer func() { tape = saved }()
+	for i, w := range order {
+		b := []byte{byte(i >> 24), byte(i >> 16), byte(i >> 8), byte(i)}
+		install([]chunk{{bs: b}})
+		r := spg.NewWLRecipe(1, wl)
+		r.Capitalize = spg.CSAll
+		p, err := r.Generate()
+		if err != nil {
+			return "error:" + hxs(err.Error())
+		}
+		if want := strings.Title(w); p.String() != want {
+			return hxs(w) + ":" + hxs(p.String())
+		}
+	}
+	return ""
+}
+
 func showStrs(ss []string) string {
 	if len(ss) == 0 {
 		return "0"
@@ -178,6 +199,9 @@ func init() {
 		}
 		scribble(list)
 		order := readOrder(wl)
+		if bad := checkCapitalised(wl, order); bad != "" {
+			sl += " GENERATED-ATOM-IS-NOT-THE-TITLE-FORM:" + bad
+		}
 		return fmt.Sprintf("ok size=%d words=%s titles=%s slice=%s", wl.Size(), showStrs(order), titleGraph(before), sl)
 	}
 	// wlgen <words> <length> <sep> <cap> <budget> <source>
